@@ -204,7 +204,11 @@ def require_ok(r: TlcRun) -> TlcRun:
 
 
 def sany(module: str) -> None:
-    p = subprocess.run(["java", "-cp", JAR, "tla2sany.SANY", f"{module}.tla"], cwd=SPEC,
+    import tempfile
+    CACHE.mkdir(parents=True, exist_ok=True)
+    tmp = Path(tempfile.mkdtemp(prefix="sany-", dir=CACHE))
+    p = subprocess.run(["java", f"-Djava.io.tmpdir={tmp}", "-cp", JAR, "tla2sany.SANY", f"{module}.tla"], cwd=SPEC,
                        capture_output=True, text=True)
+    shutil.rmtree(tmp, ignore_errors=True)
     if p.returncode != 0 or "*** Errors" in p.stdout or "Fatal" in p.stdout:
         raise TlcError(f"SANY failed for {module}:\n{p.stdout[-3000:]}")
